@@ -166,9 +166,19 @@ pub fn meta_of(pool: &[KeyInfo], m: &SMeta) -> MetadataWrapper {
 /// JSON text of a signed block, with real signature values.
 pub fn block_text(pool: &[KeyInfo], b: &SBlock) -> String {
     let final_meta = meta_of(pool, &b.meta);
+    let mut signed = serde_json::to_value(&final_meta).unwrap();
+    let mut reread = None;
+    if let SMeta::Layout(l) = &b.meta {
+        if let Some(off) = l.offset_min {
+            let tz = chrono::FixedOffset::east_opt(off * 60).unwrap();
+            signed["expires"] = Value::String(l.expires.with_timezone(&tz).to_rfc3339_opts(chrono::SecondsFormat::Secs, false));
+            // the owner signs with this library what it reads from the document as written
+            reread = MetadataWrapper::from_bytes(signed.to_string().as_bytes(), in_toto::models::MetadataType::Layout).ok();
+        }
+    }
     let signed_meta = match &b.signed_over {
         Some(m) => meta_of(pool, m),
-        None => final_meta.clone(),
+        None => reread.unwrap_or_else(|| final_meta.clone()),
     };
     let mut sigs = vec![];
     for s in &b.sigs {
@@ -179,13 +189,6 @@ pub fn block_text(pool: &[KeyInfo], b: &SBlock) -> String {
             v[n / 2] ^= 0x04;
         }
         sigs.push(json!({"keyid": kid(pool, s.label), "sig": hex(&v)}));
-    }
-    let mut signed = serde_json::to_value(&final_meta).unwrap();
-    if let SMeta::Layout(l) = &b.meta {
-        if let Some(off) = l.offset_min {
-            let tz = chrono::FixedOffset::east_opt(off * 60).unwrap();
-            signed["expires"] = Value::String(l.expires.with_timezone(&tz).to_rfc3339_opts(chrono::SecondsFormat::Secs, false));
-        }
     }
     json!({"signatures": sigs, "signed": signed}).to_string()
 }
@@ -460,6 +463,8 @@ pub struct Gen<'a> {
     pub pool: &'a [KeyInfo],
     pub insp_counter: usize,
     pub force_delegate: bool,
+    /// many functionaries per step and thresholds 2..3 (multi-party scenarios)
+    pub multi_party: bool,
 }
 
 impl<'a> Gen<'a> {
@@ -480,7 +485,7 @@ impl<'a> Gen<'a> {
     /// A layout that verifies, with its link directory. `signers`: keys that sign the layout block.
     pub fn valid_layout(&mut self, depth: usize, path: &str, signers: &[usize], allow_insp: bool) -> (SBlock, SDir) {
         let nsteps = 1 + self.r.below(3);
-        let nfun = 2 + self.r.below(2);
+        let nfun = if self.multi_party { 3 + self.r.below(2) } else { 2 + self.r.below(2) };
         let funs = self.pick_keys(nfun, signers);
         let mut steps = vec![];
         let mut dir = SDir::default();
@@ -488,8 +493,8 @@ impl<'a> Gen<'a> {
         let mut delegated = false;
         for i in 0..nsteps {
             let name = format!("s{}", i);
-            let threshold = *self.r.pick(&[1u32, 1, 1, 2]);
-            let nauth = (threshold as usize).max(1 + self.r.below(2)).min(funs.len());
+            let threshold = if self.multi_party { *self.r.pick(&[2u32, 2, 3]) } else { *self.r.pick(&[1u32, 1, 1, 2]) };
+            let nauth = if self.multi_party { funs.len() } else { (threshold as usize).max(1 + self.r.below(2)).min(funs.len()) };
             let auth: Vec<usize> = funs.iter().cloned().take(nauth).collect();
             let threshold = threshold.min(auth.len() as u32);
             let mats = prev_prods.clone();
@@ -508,7 +513,7 @@ impl<'a> Gen<'a> {
             };
             let prod_rules = vec![ArtifactRule::Create(vp(&format!("out{}", i))), ArtifactRule::Allow(vp("*"))];
             // evidence: every authorized key provides a link (more than the threshold needs, sometimes)
-            let nlinks = if self.r.chance(1, 2) { auth.len() } else { threshold as usize };
+            let nlinks = if self.multi_party || self.r.chance(1, 2) { auth.len() } else { threshold as usize };
             for (j, &k) in auth.iter().enumerate().take(nlinks.max(threshold as usize)) {
                 let delegate = depth > 0 && j == 0 && threshold == 1 && (self.force_delegate || self.r.chance(1, 3));
                 let link = SLink { name: name.clone(), mats: mats.clone(), prods: prods.clone(), stdout: format!("built {}", i), command: vec!["make".into(), format!("t{}", i)] };
